@@ -58,7 +58,9 @@ def run(ctx):
         traces.append(tp)
         sp = os.path.join(ctx.scratch, "script%d.json" % k)
         json.dump(core + (flips if quick else flips[k::shards]), open(sp, "w"))
-        argv = [drv, "--script", sp, "--out", tp, "--salt", str(k), "--worlds", str(worlds)]
+        # + honest sign/verify of many fresh messages (the message enters through the hash to the curve)
+        argv = [drv, "--script", sp, "--out", tp, "--salt", str(k), "--worlds", str(worlds),
+                "--sweep", str(250 if quick else 1500)]
         if k == 0:
             argv += ["--extras", "--bigpairs", str(4 if quick else 12)]
         argvs.append(argv)
